@@ -2,7 +2,11 @@ use crate::chess::bitboard::{bitboards, Bitboard};
 use crate::chess::movegen::{attackers, pins, tables};
 use crate::chess::moves::MoveList;
 use crate::chess::square::{squares, Square};
-use crate::chess::{game::Game, moves::Move, piece::PromotionPieceKind};
+use crate::chess::{
+    game::Game,
+    moves::Move,
+    piece::{Piece, PieceKind, PromotionPieceKind},
+};
 
 pub struct MovegenCache {
     checkers: Bitboard,
@@ -260,6 +264,13 @@ fn generate_pawn_captures(
                     board_without_en_passant_participants
                         .remove_at(potential_en_passant_capture_start);
                     board_without_en_passant_participants.remove_at(captured_pawn);
+
+                    // The capturing pawn ends up on the en-passant target, where it may block
+                    // a checking or pinning ray
+                    board_without_en_passant_participants.set_at(
+                        en_passant_target,
+                        Piece::new(game.player, PieceKind::Pawn),
+                    );
 
                     let king_in_check = attackers::generate_attackers_of(
                         &board_without_en_passant_participants,
